@@ -1,6 +1,6 @@
-\* C19: the smoothing window of estimateZ0 is a window on the circle (default half window 22, and 1, 45, 89)
+\* C19: the smoothing window of estimateZ0 is a window on the circle (half windows in half degrees: 1, 22 (default), 22.5, 45, 88.5, 89 degrees)
 CONSTANTS
-  HalfWindows = {1, 22, 45, 89}
+  HalfWindows = {2, 44, 45, 90, 177, 178}
   WrapStyle = "code"
   Rotations = {1, 45, 90, 180, 271, 359}
 INIT Init
